@@ -143,8 +143,30 @@ class Evaluator:
                 env[p.arg] = self.expr(d, env)
         for p in params:
             env.setdefault(p.arg, ('sym', p.arg))
+        return self.run_top(list(fn.body), env, 0)
+
+    def run_top(self, stmts, env, forks):
+        """Top-level statements of a function.  An `if` whose test the
+        abstract operands do not determine (a comparison of node numbers,
+        say) forks the evaluation: the result is ('either', test, value
+        when true, value when false), and has to be right both ways."""
         try:
-            self.block(fn.body, env)
+            for k, s in enumerate(stmts):
+                if isinstance(s, ast.If):
+                    t = self.expr(s.test, env)
+                    if not is_const(t) and not self.only_raises(s.body):
+                        if forks >= 3:
+                            raise Undecided(
+                                f'cannot decide test `{au.short(s.test)}`')
+                        rest = stmts[k + 1:]
+                        a = self.run_top(list(s.body) + rest, dict(env),
+                                         forks + 1)
+                        b = self.run_top(list(s.orelse) + rest, dict(env),
+                                         forks + 1)
+                        if a == b:
+                            return a
+                        return ('either', au.short(s.test, 50), a, b)
+                self.stmt(s, env)
         except Return as r:
             return r.value
         except Raise as r:
